@@ -80,6 +80,10 @@ def gen_case(rng, C, cfg, digits, nbuses=1, n_frames=None, comments=None):
     elif n_frames:
         ft["n_frames"] = n_frames
     db = matgen.gen_matrix(rng, C, **ft)
+    for fr in db.frames:
+        # degenerate: flagged as extended multiplexing but no room was left for any multiplexed signal
+        if fr.is_complex_multiplexed and not any(s.mux_val is not None for s in fr.signals):
+            fr.is_complex_multiplexed = False
     if not cfg.cluster:
         return {"": db}
     names = BUS_NAMES[:nbuses]
